@@ -95,6 +95,14 @@ def run(index, rep, tier):
                 nw += 1
                 seen_writers.add(fi.qualname)
                 ok = fi.qualname in LINK_WRITERS and w.attr in LINK_WRITERS[fi.qualname][0]
+                if not ok and w.attr == "_child_nodes" and w.kind == "mutcall":
+                    # `L.insert(i, L.pop(j))` on ONE child list is a permutation of it: every parent/child pairing is as before
+                    call = w.call if getattr(w, "call", None) is not None else None
+                    st = w.stmt
+                    perm = [c for c in ast.walk(st) if isinstance(c, ast.Call) and isinstance(c.func, ast.Attribute) and c.func.attr == "insert" and len(c.args) == 2
+                            and isinstance(c.args[1], ast.Call) and isinstance(c.args[1].func, ast.Attribute) and c.args[1].func.attr == "pop" and norm(c.args[1].func.value) == norm(c.func.value)]
+                    if perm and all(norm(c.func.value).endswith("._child_nodes") for c in perm):
+                        ok = True
                 if ok and w.attr == "_child_nodes" and fi.qualname in (TREE + ".ladderize", TREE + ".reorder"):
                     ok = w.kind == "mutcall" and w.method in ("sort", "reverse")   # order-only
                 rep.check(ok, "R03.1", fi.qualname, "%s of %s.%s" % (w.kind if w.kind != "mutcall" else w.method, w.base_text, w.attr), fn_where(fi, w.stmt),
